@@ -57,8 +57,11 @@ type Res struct {
 	Counters    map[string]int64 `json:"counters"`
 	Capped      bool             `json:"capped"`
 	Infra       []string         `json:"infra"`
-	MaxLive     int              `json:"max_live"`
-	nt, oc      map[uint64]struct{}
+	// Notes are printed and stored in the evidence; they make the run non-exhaustive but are neither a
+	// violation nor an infrastructure error (used for broken assumptions of the machinery itself).
+	Notes   []string `json:"notes"`
+	MaxLive int      `json:"max_live"`
+	nt, oc  map[uint64]struct{}
 }
 
 func Hash(parts ...string) uint64 {
@@ -446,7 +449,7 @@ func master(h Harness, jobs []Job, tr string, budget int) {
 	var mu sync.Mutex
 	next := 0
 	skipped := 0
-	var infra []string
+	var infra, notes []string
 	jobTimeout := 1800 * time.Second
 	take := func() int {
 		mu.Lock()
@@ -508,6 +511,11 @@ func master(h Harness, jobs []Job, tr string, budget int) {
 			total.MaxLive = r.MaxLive
 		}
 		infra = append(infra, r.Infra...)
+		for _, n := range r.Notes {
+			if len(notes) < 20 {
+				notes = append(notes, n)
+			}
+		}
 	}
 	var wg sync.WaitGroup
 	for w := 0; w < nw; w++ {
@@ -612,7 +620,7 @@ func master(h Harness, jobs []Job, tr string, budget int) {
 		}
 	}
 	sort.Slice(unlisted, func(i, j int) bool { return unlisted[i].Sig < unlisted[j].Sig })
-	exhaustive := !total.Capped && skipped == 0 && len(infra) == 0 && len(unlisted) == 0
+	exhaustive := !total.Capped && skipped == 0 && len(infra) == 0 && len(unlisted) == 0 && len(notes) == 0
 	cov := map[string]any{
 		"evaluations":                   total.Evals,
 		"distinct_nontrivial":           len(nt),
@@ -630,6 +638,9 @@ func master(h Harness, jobs []Job, tr string, budget int) {
 		"max_live_goroutines":           total.MaxLive,
 		"counters":                      total.Counters,
 		"known_findings_seen":           len(knownSeen),
+	}
+	if len(notes) > 0 {
+		cov["notes"] = notes
 	}
 	if total.Samples == nil {
 		cov["samples"] = []string{fmt.Sprintf("%d jobs, first: %s", len(jobs), jobs[0].Name)}
@@ -666,6 +677,9 @@ func master(h Harness, jobs []Job, tr string, budget int) {
 	}
 	for _, f := range knownSeen {
 		fmt.Printf("KNOWN-FINDING: property=%s %s %s\n", h.ID, f.sig, f.text)
+	}
+	for _, s := range notes {
+		fmt.Println("NOTE:", strings.ReplaceAll(s, "\n", "\n  "))
 	}
 	for _, s := range infra {
 		fmt.Println("INFRA:", s)
